@@ -20,6 +20,7 @@ import (
 const modulePath = "github.com/openconfig/gnmi"
 
 type SpecDef struct {
+	Pkg    string
 	Name   string
 	Params []string
 	Ret    string
@@ -490,6 +491,16 @@ func (g *Gen) inlinable(x *Exec, f *ssa.Function) bool {
 	if !inModule(fp) && f.Synthetic == "" {
 		return false
 	}
+	// modularity: only helpers of the package under verification, generated protobuf accessors and synthetic
+	// wrappers are inlined; anything else needs a contract.
+	if f.Synthetic == "" && fp != nil {
+		top := x.stack[0]
+		samePkg := top.Pkg != nil && top.Pkg.Pkg == fp
+		isPB := strings.Contains(fp.Path(), "/proto/")
+		if !samePkg && !isPB {
+			return false
+		}
+	}
 	if x.depth >= 6 {
 		return false
 	}
@@ -585,6 +596,7 @@ func (g *Gen) verifyFunc(fn *ssa.Function, con *Contract) (vc *VC, err error) {
 		vc.declConst(c, vc.sortOf(p.Type()))
 		x.vals[p] = c
 		x.assumeType(st, c, p.Type())
+		x.assumeUnowned(st, c, p.Type())
 	}
 	for _, fv := range fn.FreeVars {
 		c := quote("fv$" + fv.Name())
@@ -597,6 +609,21 @@ func (g *Gen) verifyFunc(fn *ssa.Function, con *Contract) (vc *VC, err error) {
 	for _, cl := range con.Req {
 		env := x.newEnv(st, st)
 		vc.assert(env.evalBool(cl.Expr))
+	}
+	for _, cl := range con.Maintains {
+		env := x.newEnv(st, st)
+		vc.assert(env.evalBool(cl.Expr))
+	}
+	// a closure under contract counts its own invocations: calls(self)
+	if fn.Parent() != nil {
+		vc.declConst("p$self", sInt)
+		vc.assert("(> p$self 0)")
+		vc.regComp("Calls", "(Array Int Int)")
+		x.selfRef = "p$self"
+	}
+	x.preEntry = st.clone()
+	if x.selfRef != "" {
+		vc.set(st, "Calls", store(vc.get(st, "Calls"), x.selfRef, app("+", sel(vc.get(st, "Calls"), x.selfRef), "1")))
 	}
 	// declared ghost effects happen on entry (effects that mention results are applied at the returns instead)
 	for _, ef := range con.Effects {
@@ -614,6 +641,8 @@ func (g *Gen) verifyFunc(fn *ssa.Function, con *Contract) (vc *VC, err error) {
 	// vacuity: the precondition must be satisfiable
 	vc.oblige(&Obl{Name: name + "/cover/entry", Kind: "cover", Props: con.Props, Reach: "true", Goal: "false", Cover: true, Src: "precondition satisfiable"})
 	x.entry = st.clone()
+	x.entry0 = x.entry
+	st.entry = x.entry
 	x.entryNext = vc.getNext(st)
 	x.run(st)
 	// postconditions and frame at every return
@@ -623,17 +652,26 @@ func (g *Gen) verifyFunc(fn *ssa.Function, con *Contract) (vc *VC, err error) {
 			if !exprMentionsResult(ef.Expr) {
 				continue
 			}
-			env := x.newEnv(x.entry, x.entry)
+			env := x.newEnv(x.oldOf(r.st), x.oldOf(r.st))
 			env.bindResults(sig, r.vals)
 			v := env.eval(ef.Expr)
 			comp := env.compByName("ghost:" + ef.Name)
 			vc.set(r.st, comp, v.t)
 		}
 		for _, cl := range con.Ens {
-			env := x.newEnv(r.st, x.entry)
+			env := x.newEnv(r.st, x.oldOf(r.st))
 			env.bindResults(sig, r.vals)
 			t := env.evalBool(cl.Expr)
 			x.obligeClause("post", clauseLabel(cl), r.st.reach, t, cl)
+		}
+		for _, cl := range con.Maintains {
+			t := x.newEnv(r.st, x.oldOf(r.st)).evalBool(cl.Expr)
+			x.obligeClause("maintains", clauseLabel(cl), r.st.reach, t, cl)
+		}
+		for _, cl := range con.Preserves {
+			after := x.newEnv(r.st, x.oldOf(r.st)).eval(cl.Expr)
+			before := x.newEnv(x.preEntry, x.preEntry).eval(cl.Expr)
+			x.obligeClause("preserves", clauseLabel(cl), r.st.reach, eq(after.t, before.t), cl)
 		}
 		x.frameCheck(r.st, ri)
 	}
@@ -705,10 +743,11 @@ func (x *Exec) frameGoals(st *State, only map[string]bool) ([]frameGoal, bool) {
 			return nil, true
 		}
 	}
-	if st.base != x.entry.base {
+	entry := x.oldOf(st)
+	if st.base != entry.base {
 		return nil, false
 	}
-	envOld := x.newEnv(x.entry, x.entry)
+	envOld := x.newEnv(entry, entry)
 	allowedWhole := map[string]bool{}
 	allowedRefs := map[string][]string{}
 	for _, ef := range con.Effects {
@@ -719,10 +758,8 @@ func (x *Exec) frameGoals(st *State, only map[string]bool) ([]frameGoal, bool) {
 			allowedWhole[envOld.compByName(m.Heap)] = true
 			continue
 		}
-		comp, ref := envOld.modTarget(m)
-		allowedRefs[comp] = append(allowedRefs[comp], ref)
-		if m.MapOf {
-			allowedRefs[envOld.modTarget2(m)] = append(allowedRefs[envOld.modTarget2(m)], ref)
+		for _, cr := range envOld.modTargets(m) {
+			allowedRefs[cr.comp] = append(allowedRefs[cr.comp], cr.ref)
 		}
 	}
 	protected := x.protectedHeaps()
@@ -741,13 +778,13 @@ func (x *Exec) frameGoals(st *State, only map[string]bool) ([]frameGoal, bool) {
 			continue
 		}
 		bare := strings.Trim(k, "|")
-		if k == "next" || k == "Held" || k == "Owned" || strings.HasPrefix(bare, "armed$") || strings.HasPrefix(bare, "IterVis$") {
+		if k == "next" || k == "Held" || k == "Owned" || k == "Calls" || strings.HasPrefix(bare, "armed$") || strings.HasPrefix(bare, "IterVis$") {
 			continue
 		}
 		if allowedWhole[k] {
 			continue
 		}
-		now, before := vc.get(st, k), vc.get(x.entry, k)
+		now, before := vc.get(st, k), vc.get(entry, k)
 		if now == before {
 			continue
 		}
@@ -881,4 +918,12 @@ func exprMentionsResult(e *CExpr) bool {
 		}
 	}
 	return false
+}
+
+// oldOf: the state that old(...) denotes on the path of st.
+func (x *Exec) oldOf(st *State) *State {
+	if st != nil && st.entry != nil {
+		return st.entry
+	}
+	return x.entry
 }
